@@ -162,6 +162,12 @@ def make(bootstrap):
         c: int = 3
 
     @spec_class(key="b", **kw)
+    class KZ:  # key with a FALSY default: still a default, so the key stays optional (seeded change C09-E)
+        b: str = ""
+        a: int = 0
+        c: int = 4
+
+    @spec_class(key="b", **kw)
     class KRP:
         b: str
         a: int = 0
@@ -171,7 +177,7 @@ def make(bootstrap):
         b = "x"
         c: int = 4
 
-    ns = {c.__name__: c for c in (P, C, PC, R, M, HC, HD, HZ, HL, KF, KL, OL, NI, K, KD, O, NIS, NIR, FD, KR)}
+    ns = {c.__name__: c for c in (P, C, PC, R, M, HC, HD, HZ, HL, KF, KL, OL, NI, K, KD, O, NIS, NIR, FD, KR, KZ)}
     return ns
 
 
@@ -200,6 +206,7 @@ REF = {
     "NIR": dict(attrs=[("a", int, 1), ("h", int, 8), ("c", int, 2), ("b", str, "nb")], noninit={"h"}),
     "FD": dict(attrs=[("a", int, 11), ("b", str, "b"), ("c", int, 3)]),
     "KR": dict(attrs=[("b", str, "x"), ("a", int, 0), ("c", int, 4)], key="b"),
+    "KZ": dict(attrs=[("b", str, ""), ("a", int, 0), ("c", int, 4)], key="b"),
 }
 UNKNOWN = ["zz", "with_a", "_priv", "h2"]
 
@@ -312,7 +319,7 @@ def obligations(tier):
     T = 200 if tier == "quick" else 900
     for fam in ("eager", "lazy"):
         for cname in REF:
-            if tier == "quick" and fam == "lazy" and cname in ("PC", "R", "M", "KD", "NI", "HZ", "OL", "KF", "NIR", "FD"):
+            if tier == "quick" and fam == "lazy" and cname in ("PC", "R", "M", "KD", "NI", "HZ", "OL", "KF", "NIR", "FD", "KZ"):
                 continue
             obs.append(Ob(f"C09.{fam}.{cname}", make_h(fam, cname), _warm(), f"hierarchy {cname} ({fam} bootstrap); keyword presence bits for a, b, c; values conforming symbolic (int / str) or from a non-conforming pool; key passed positionally or by name; one unknown keyword from {UNKNOWN}; init=False attribute passed by name", expect={"ok"}, timeout=T))
     return obs
